@@ -68,7 +68,7 @@ def check_mgda(ctx: Ctx, J, dtype):
         return
     mean = combine(J, [Fr(1, m)] * m)
     nx, nm = dotf(xs, xs), dotf(mean, mean)
-    if nx > nm * (1 + 64 * uu * m) + Fr(10) ** -300:
+    if nx > nm * (1 + 64 * uu * m) + (256 * uu * m) ** 2 * gs:      # floor: the mean may vanish exactly
         ctx.violation(f"MGDA output is longer than the mean of the rows: |A(J)|²={float(nx):.6e} > |mean|²={float(nm):.6e}",
                       {**rp0, "max_iters": iters})
         return
@@ -213,6 +213,13 @@ def check_cagrad(ctx: Ctx, J, dtype):
     if all(v == 0 for v in xs):
         ctx.count("cagrad_zero_output")
         return                      # stationarity branch (|g_w| < norm_eps)
+    # near stationarity (0 almost in the hull) |g_w| is computed from the square roots of the eigenvalues of a
+    # float Gramian and carries an ABSOLUTE error ~ sqrt(u)·s: the identity is then ill-conditioned (margin rule)
+    mu = fr_list([ask_agg(ctx.driver, "minnorm", J)[2]])[0]
+    s2 = top_singular_sq(J)
+    if mu < (Fr(1, 10 ** 3) if dtype == torch.float32 else Fr(1, 10 ** 9)) * s2:
+        ctx.count("cagrad_skipped_near_stationary")
+        return
     # |d - g0|² = c² |g0|²
     target = Fr(c) ** 2 * n0
     if abs(nd - target) > rel * max(target, n0):
